@@ -64,7 +64,7 @@ def _e2_plan(prop, tier):
             {"engine": "e2_history", "label": "hist", "n": 140 if q else 20000, "timeout": 600.0},
             {"engine": "e2_history", "label": "hist-faults", "n": 60 if q else 10000, "kwargs": {"faults": True}, "timeout": 600.0},
             {"engine": "e2_history", "label": "hist-generated", "n": 64 if q else 5000, "kwargs": {"generated": True}, "timeout": 600.0},
-            {"engine": "e2_history", "label": "blocks", "n": 32 if q else 320, "indexed": True, "kwargs": {"blocks": True}, "timeout": 900.0},
+            {"engine": "e2_history", "label": "blocks", "n": 36 if q else 360, "indexed": True, "kwargs": {"blocks": True}, "timeout": 900.0},
             {"engine": "e2_history", "label": "two-trees", "n": 32 if q else 3000, "kwargs": {"trees": True}, "timeout": 600.0},
             {"engine": "e2_history", "label": "disk", "n": 32 if q else 3000, "kwargs": {"disk": True}, "timeout": 600.0},
         ],
